@@ -81,7 +81,8 @@ def run(ck):
     ck.cat("deep_rnp_snp_scope_groups", ndeep)
     ck.rule = ("TLC enumerates every bag of <=%d values in 0..%d x k<=%d; dp (5 objectives, every k-parameter), complete greedy (16 switch "
                "combinations x 3 objectives), ckk, snp, rnp and (sub-sampled) ilp are executed on each; plus seeded random families n<=10, "
-               "v<=100 (4-bin instances emphasised for rnp); optimum recomputed in TLA+ (Oracles.Opt). non-trivial = distinct (bag,k) with >=2 items and >=2 bins"
+               "v<=100 (4-bin instances emphasised for rnp); optimum recomputed in TLA+ (Oracles.Opt); beyond that size (8-11 items, 3-5 bins) rnp, snp, ckk, dp and cg are judged "
+               "against witness partitions from the harness's own exhaustive search, which TLC checks itself (JWit). non-trivial = distinct (bag,k) with >=2 items and >=2 bins"
                ) % ((5, 5, 4) if q else (6, 6, 5))
     traces = core.pmap(drive.run_part_group, groups)
     for t in traces:
@@ -116,6 +117,35 @@ def run(ck):
         ck.cat("solver_inconsistency", len(retry) - len({id(fl["trace"]) for fl in f2}))
         keep += still
     ck.classify(keep, ctx_of)
+    # beyond the exhaustive oracle: 8-11 items into 3-5 bins, judged against a WITNESS partition that TLC checks itself (JWit): a result worse than
+    # the witness is not optimal, whatever the optimum is
+    wg = []
+    for i, g in enumerate(gen.witness_family(ck.rng, 7000 if q else 60000)):
+        n, k = len(g["vals"]), g["k"]
+        cs = [call("rnp", "dict"), call("snp", "dict"), call("cg", "dict", o="diff", sw="1101")]
+        if k <= 4 or n <= 8:
+            cs.append(call("ckk", "dict"))
+        if k == 3:          # dynamic programming takes seconds per call from 4 bins x 9 items on
+            cs.append(call("dp", "dict", o="diff"))
+        wg.append({"vals": g["vals"], "k": k, "o": "diff", "kp": 0, "calls": cs, "watchdog": 30})
+        if i % 4 == 0:
+            o, kp = [("maxsum", 0), ("minsum", 0), ("klargest", 2), ("ksmallest", 2)][(i // 4) % 4]
+            cs2 = ([call("dp", "dict", o=o, kp=kp)] if k == 3 else []) + ([call("cg", "dict", o=o, sw="1111")] if kp == 0 else [])
+            if not cs2:
+                continue
+            wg.append({"vals": g["vals"], "k": k, "o": o, "kp": kp, "calls": cs2, "watchdog": 30})
+    tw = core.pmap(drive.run_wit_group, wg)
+    for t in tw:
+        ck.evaluations += len(t["res"])
+        ck.nontrivial.add(key_part(t))
+        for r in t["res"]:
+            if r["out"] == "timeout":
+                ck.timeouts += 1
+        t["res"] = [r for r in t["res"] if r["out"] != "timeout"]
+    tw = [t for t in tw if t["res"]]
+    ck.cat("witness_judged_groups", len(tw))
+    fw = ck.judge("JWit", tw, {"C02"}, what="C02 beyond the oracle: results against TLC-checked witness partitions", chunk=6000)
+    ck.classify(fw, ctx_of)
     ck.assumptions += ["the MIP solver returns what it claims; an ILP answer rejected by TLC is re-solved once with preprocessing off and only a repeated rejection is a violation",
                        "TLC / SANY / CommunityModules; Oracles.Opt cross-validated against brute force on a small scope in this run",
                        "totals < 2^31 (TLC integers)"]
